@@ -342,4 +342,6 @@ def main(tier):
         c04_store.check(rep, units)
     except ImportError:
         pass
+    import bounds
+    bounds.check(rep, {'crc', 'crc_copy', 'adler'}, 'CRC', 30)
     return rep.finish()
